@@ -344,6 +344,10 @@ classes:
 			}
 		}
 	}
+	// a code block that calls Parse of its own package (an include, a sub-language): finding D39
+	if c.Shard == 0 {
+		addBatch("{\npackage PKG\n}\n\nA <- x:B !. { return Parse(\"inner\", []byte(\"b\")) }\nB <- \"b\"\n", nil, "a code block calls Parse", true)
+	}
 	// rules ALL of whose code blocks lie below a recovery operator (the usual shape of labeled
 	// failures: //{..} binds weakest, so the rule's action sits in its guarded expression), on either
 	// side of it, nested twice, referenced from another rule and inlined by -optimize-grammar
@@ -512,6 +516,10 @@ func compileBatch(cases []ConfCase) (int, []Violation, error) {
 					}
 				}
 				known := ""
+				if strings.Contains(out, "initialization cycle") && strings.Contains(cs.Text, "Parse(") {
+					// finding D39: a code block that calls Parse of its own package
+					known = "D39"
+				}
 				viols = append(viols, Violation{Property: "C04", Desc: what + ": " + strings.Join(firstN(lines, 3), " | "), Grammar: strings.Replace(cs.Text, "package PKG", "package "+pkg, 1), Gen: strings.Join(cs.Gen.AltEntry, " "), Known: known})
 			}
 		}
